@@ -138,10 +138,10 @@ func (b bits) stuckBits() (never1, never0 []string) {
 func genConfig(g *vkit.Rng, i int64, perConfig int) Case {
 	c := Case{Goroutines: 1 + g.Intn(64), Procs: 1 + g.Intn(16)}
 	switch i % 6 {
-	case 0:
-		c.Goroutines = 1
-	case 1:
+	case 0: // also the very first configuration of the process: the generator's first use comes from several goroutines at once
 		c.Goroutines, c.Procs = 2+g.Intn(3), 2+g.Intn(15)
+	case 1:
+		c.Goroutines = 1
 	case 2:
 		c.Goroutines, c.Procs = 64, 16
 	case 3:
